@@ -18,6 +18,7 @@ pub struct VisitRec {
     pub dir: Option<EntityDirectAny>,
     pub removals: u64,
     pub creations: u64,
+    pub ver: u64,
 }
 
 pub struct QState<'a> {
@@ -131,7 +132,7 @@ impl<'a> QState<'a> {
             }
         }
         let am = &self.m.archs[arch];
-        self.visits.push(VisitRec { ent, arch, dir: v.dir, removals: am.removals, creations: am.creations });
+        self.visits.push(VisitRec { ent, arch, dir: v.dir, removals: am.removals, creations: am.creations, ver: am.ver });
         match &act.inner {
             Inner::Nothing => {}
             Inner::OtherCreate { p } => {
@@ -459,7 +460,7 @@ impl<W: WorldSpec> Engine<W> {
         // direct handles handed to the closure go into the book with the epochs of their visit
         for v in &visits {
             if let Some(d) = v.dir {
-                self.add_dir(d, v.ent, wid, v.removals, v.creations);
+                self.add_dir(d, v.ent, wid, v.removals, v.creations, v.ver);
                 self.stats.inc("direct_from_closure");
             }
         }
